@@ -4,7 +4,7 @@
     [widths_ok] and ALL keys with [key_ok] (distinct odd primes p, q below 2^wP with gcd(pq, (p-1)(q-1)) = 1:
     p<q and p>q, moduli of 2k and 2k-1 bits alike). *)
 From Coq Require Import ZArith List.
-From SL Require Import Lib.Base Model.Paillier Proofs.PaillierNT Proofs.PaillierWidth Proofs.PaillierDec Proofs.PaillierHom Proofs.PaillierExamples Proofs.PaillierPrimes.
+From SL Require Import Lib.Base Model.Paillier Proofs.PaillierNT Proofs.PaillierWidth Proofs.PaillierDec Proofs.PaillierHom Proofs.PaillierChain Proofs.PaillierExamples Proofs.PaillierPrimes.
 Local Open Scope Z_scope.
 
 (** the ciphertext of m under r is ((1 + m N) r^N) mod N^2 (no truncation by any width) *)
@@ -56,6 +56,29 @@ Check nroot_correct : forall (w : widths) (p q : Z), widths_ok w -> key_ok w p q
   forall r : Z, 0 <= r < p * q -> Z.gcd r (p * q) = 1 ->
   extract_n_root w (from_pq w p q) (r ^ (p * q) mod (p * q)) = r.
 Print Assumptions nroot_correct.
+
+(** the randomiser is recovered from the ciphertext itself: N-th root extraction of (ciphertext mod N) returns r, for every
+    plaintext (session 3) *)
+Theorem nroot_of_ciphertext : forall (w : widths) (p q : Z), widths_ok w -> key_ok w p q ->
+  forall m r : Z, 0 <= m < p * q -> 0 <= r < p * q -> Z.gcd r (p * q) = 1 ->
+  extract_n_root w (from_pq w p q) (encrypt w (sk_pk (from_pq w p q)) m r mod (p * q)) = r.
+Proof. exact enc_root. Qed.
+Check nroot_of_ciphertext : forall (w : widths) (p q : Z), widths_ok w -> key_ok w p q ->
+  forall m r : Z, 0 <= m < p * q -> 0 <= r < p * q -> Z.gcd r (p * q) = 1 ->
+  extract_n_root w (from_pq w p q) (encrypt w (sk_pk (from_pq w p q)) m r mod (p * q)) = r.
+Print Assumptions nroot_of_ciphertext.
+
+(** encryption is injective in both arguments: a ciphertext determines its plaintext and its randomiser (session 3) *)
+Theorem encrypt_injective : forall (w : widths) (p q : Z), widths_ok w -> key_ok w p q ->
+  forall m r m' r' : Z, 0 <= m < p * q -> 0 <= m' < p * q -> 0 <= r < p * q -> 0 <= r' < p * q ->
+  Z.gcd r (p * q) = 1 -> Z.gcd r' (p * q) = 1 ->
+  encrypt w (sk_pk (from_pq w p q)) m r = encrypt w (sk_pk (from_pq w p q)) m' r' -> m = m' /\ r = r'.
+Proof. exact enc_injective. Qed.
+Check encrypt_injective : forall (w : widths) (p q : Z), widths_ok w -> key_ok w p q ->
+  forall m r m' r' : Z, 0 <= m < p * q -> 0 <= m' < p * q -> 0 <= r < p * q -> 0 <= r' < p * q ->
+  Z.gcd r (p * q) = 1 -> Z.gcd r' (p * q) = 1 ->
+  encrypt w (sk_pk (from_pq w p q)) m r = encrypt w (sk_pk (from_pq w p q)) m' r' -> m = m' /\ r = r'.
+Print Assumptions encrypt_injective.
 
 (** rebuilding the secret key from its minimal form (p, q) gives the same key, field by field *)
 Theorem minimal_roundtrip : forall (w : widths) (p q : Z), from_minimal w (to_minimal (from_pq w p q)) = from_pq w p q.
